@@ -1,6 +1,6 @@
 """Helpers for check definitions in driver/checks/<ID>.py"""
 
-HOOK_COMMITS = ['5f6fbfb', '545457e', 'a16f9f9', 'eb18138', '45f2f25']
+HOOK_COMMITS = ['c05899a', 'd288bca', 'c624ca2', '20fdf65', '30670be']
 PENDING_REASON = {}
 
 ALL3 = [None, 'two', 'one', None]     # CPU shapes cycled over executions
